@@ -76,12 +76,23 @@ impl Api for LegacyApi {
     fn debug(&self, _: &str) {}
 }
 
+/// `contract<i>`, except that every fifth instance gets the UPPER-CASE spelling of its predecessor's
+/// name (`contract3`, `CONTRACT3`): addresses that are prefixes of each other and addresses that
+/// differ only in letter case both occur
+pub fn legacy_name(instance: u64) -> String {
+    if instance % 5 == 4 {
+        format!("CONTRACT{}", instance - 1)
+    } else {
+        format!("contract{}", instance)
+    }
+}
+
 /// hands out `contract<instance>` like older versions of the crate
 pub struct LegacyGen;
 
 impl AddressGenerator for LegacyGen {
     fn contract_address(&self, _api: &dyn Api, _storage: &mut dyn Storage, _code_id: u64, instance_id: u64) -> AnyResult<Addr> {
-        Ok(Addr::unchecked(format!("contract{}", instance_id)))
+        Ok(Addr::unchecked(legacy_name(instance_id)))
     }
 }
 
@@ -797,7 +808,7 @@ fn compute_sym_legacy(_app: &AppOf<LegacyApi>, sym: &str) -> Option<String> {
     if let Some(rest) = sym.strip_prefix('c') {
         if let Some((c, i)) = rest.split_once('_') {
             if c.parse::<u64>().is_ok() && i.parse::<u64>().is_ok() {
-                return Some(format!("contract{}", i));
+                return Some(legacy_name(i.parse().unwrap_or(0)));
             }
         }
     }
